@@ -198,7 +198,7 @@ CHECKS = {
             {"pkg": "./server", "overlay": "server", "pkgname": "server",
              "harnesses": [
                  {"name": "VerifC11Cursors", "quick": {"steps": 4}, "thorough": {"steps": 5}, "replay": "interpreted", "max-paths": 3000000,
-                  "covers": ["done", "set", "fetch", "purge", "clean", "pause-resume", "restart", "cleaner-tick"],
+                  "covers": ["done", "set", "fetch", "purge", "clean", "pause-resume", "restart", "cleaner-tick", "leader-change"],
                   "targets": ["cursorManager).SetCursor", "cursorManager).GetCursor", "cursorManager).getLatestCursorOffset", "apiServer).SubscribeInternal", "ReverseReader).ReadMessage"]},
                  {"name": "VerifC11Concurrent", "quick": {"preemptions": 1}, "thorough": {"preemptions": 2}, "replay": "interpreted", "max-paths": 3000000,
                   "covers": ["done"], "targets": ["cursorManager).SetCursor", "cursorManager).GetCursor", "cursorManager).getLatestCursorOffset"]},
